@@ -1033,6 +1033,38 @@ func TestVerifC06Pick(t *testing.T) {
 			continue
 		}
 		h.Tag(fmt.Sprintf("pick-ok:%d-bind:%d", vB(err == nil), c06BindEnum(bind)))
+		{ // the full input, for the picker model
+			var sb strings.Builder
+			fmt.Fprintf(&sb, "take %d %d %d %d %d %d %d %d %d %d", maxRef, c06Excl(excl), vB(strategy == schedulingconfig.NUMAMostAllocated),
+				c06BindEnum(bind), need, topo.NumCPUs, topo.NumCores, topo.NumNodes, topo.NumSockets, len(all))
+			for _, c := range all {
+				info := topo.CPUDetails[c]
+				fmt.Fprintf(&sb, " %d %d %d %d", c, info.CoreID, info.NodeID, info.SocketID)
+			}
+			fmt.Fprintf(&sb, " %s", c06Blk(avail))
+			var ak []int
+			for c := range allocated {
+				ak = append(ak, c)
+			}
+			sort.Ints(ak)
+			fmt.Fprintf(&sb, " %d", len(ak))
+			for _, c := range ak {
+				fmt.Fprintf(&sb, " %d %d %d", c, allocated[c].RefCount, c06Excl(allocated[c].ExclusivePolicy))
+			}
+			fmt.Fprintf(&sb, " %s", c06Blk(preferred))
+			h.Op("%s", sb.String())
+			if err == nil {
+				h.Obs("take 1%s", func() string {
+					var b strings.Builder
+					for _, c := range c06SortedCPUs(got) {
+						fmt.Fprintf(&b, " %d", c)
+					}
+					return b.String()
+				}())
+			} else {
+				h.Obs("take 0")
+			}
+		}
 		if err == nil {
 			s := c06SortedCPUs(got)
 			h.Op("pick %d %s %s", need, c06Blk(avail), c06Blk(s))
